@@ -68,7 +68,9 @@ using namespace cds_utils;
 #include "utils/Coder/StatCoder.h"
 #include "utils/LogSequence.h"
 
+#ifndef MEMALLOC
 #define MEMALLOC 32768
+#endif
 
 class StringDictionaryHHTFC : public StringDictionary {
 public:
